@@ -200,7 +200,8 @@ func validateResponseHeader(headerName string, headerRef *openapi3.HeaderRef, in
 	}
 
 	if found {
-		if err = headerRef.Value.Schema.Value.VisitJSON(decodedValue, opts...); err != nil {
+		// a header is part of the response: its schema is read as a response, like the body's
+		if err = headerRef.Value.Schema.Value.VisitJSON(decodedValue, append(opts, openapi3.VisitAsResponse())...); err != nil {
 			return &ResponseError{
 				Input:  input,
 				Reason: fmt.Sprintf("response header %q doesn't match schema", headerName),
